@@ -29,7 +29,7 @@ import (
 //   then toTZ               -> same instant u, shown at toTZ's offset;
 //   no zone at all          -> the reading itself, formatted without zone.
 
-var zzZoneNames = []string{"", "America/New_York", "Australia/Lord_Howe", "Asia/Kolkata", "Europe/London"}
+var zzZoneNames = []string{"", "America/New_York", "Australia/Lord_Howe", "Asia/Kolkata", "Europe/London", "UTC"}
 
 var (
 	zzFace    int64
@@ -249,5 +249,35 @@ func C19EmptyBad() {
 	} else {
 		zz.Cover("bad")
 		zz.Assert(err != nil && out == "", "unparsable input yields an error and no time")
+	}
+}
+
+
+// C19EpochText: the epoch argument is a decimal number: padded with zeros it is still decimal
+// (fixed-width fields), and text in another base or with digit separators is an error.
+func C19EpochText() {
+	cases := []struct {
+		in   string
+		sec  int64
+		fail bool
+	}{
+		{"100", 100, false}, {"0000000000000100", 100, false}, {"089", 89, false}, {"-0012", -12, false},
+		{"0x10", 0, true}, {"0b101", 0, true}, {"0o17", 0, true}, {"1_000", 0, true}, {"12a", 0, true}, {" 12", 0, true},
+	}
+	c := cases[zz.NondetChoice("case", len(cases))]
+	zzOutSet = false
+	out, err := EpochToDateTimeRFC3339(nil, c.in, epochUnitSeconds)
+	if c.fail {
+		zz.Cover("rejected")
+		zz.Assert(err != nil && out == "", "text that is not a decimal number is an error, never a time")
+		return
+	}
+	zz.Cover("accepted")
+	zz.Assert(err == nil, "a zero-padded decimal epoch is accepted")
+	if zz.Symbolic() {
+		zz.Assert(zzOutSet && zzOutTime.Unix() == c.sec, "and read in base 10")
+	} else {
+		t, perr := time.Parse(time.RFC3339, out)
+		zz.Assert(perr == nil && t.Unix() == c.sec, "and read in base 10")
 	}
 }
